@@ -1,11 +1,13 @@
 #!/bin/sh
-# developer helper: tool/seedtest.sh <patch.diff> <prop> [<prop>...]
-# applies a seeded change to /repo, runs the checks (no evidence written), undoes the change
+# developer helper: tool/seedtest.sh <patch.diff> <prop>...
+# applies a seeded change to a SCRATCH COPY of /repo (never /repo itself: background runs copy /repo while
+# this runs) and runs the given checks against the copy (no evidence written)
 PATCH="$1"; shift
-git -C /repo apply "$PATCH" || { echo "patch does not apply"; exit 3; }
+D=$(mktemp -d /tmp/seedtest-XXXXXX)
+rsync -a --exclude target --exclude .git /repo/ "$D/"
+( cd "$D" && patch -p1 -s -i "$PATCH" ) || { echo "PATCH DOES NOT APPLY"; rm -rf "$D"; exit 3; }
 for P in "$@"; do
   echo "== $P"
-  "$(dirname "$0")/../bin/check" "$P" --no-evidence 2>&1 | grep -E "VIOLATION|failed obligation|INCONCLUSIVE|discharged|KNOWN|failing input" | head -12
+  SYLT_REPO="$D" "$(dirname "$0")/../bin/check" "$P" --no-evidence 2>&1 | grep -E "VIOLATION|failed obligation|failing input|INCONCLUSIVE|discharged|KNOWN" | head -12
 done
-git -C /repo checkout -- .
-git -C /repo status --short | head -3
+rm -rf "$D"
